@@ -7,6 +7,7 @@ import (
 	"regexp"
 	"strings"
 
+	"go.pennock.tech/tabular"
 	"go.pennock.tech/tabular/markdown"
 	"go.pennock.tech/tabular/properties/align"
 
@@ -23,6 +24,22 @@ type Case struct {
 	Align  []int      `json:"align,omitempty"` // [0] column 0 default, [i] column i: 0 unset 1 left 2 right 3 centre
 	// Pre > 0: the wrapper is created and rendered once after Pre-1 operations; the checked render goes through it again.
 	Pre int `json:"pre,omitempty"`
+	// Props: a property history on the columns, applied after Align (several keys per column, re-set and removed)
+	Props []gen.PropOp `json:"props,omitempty"`
+}
+
+// finalAlign folds Align and the property history into the alignment each column ends up with; with a table, it
+// performs them on it as well.
+func finalAlign(c Case, n int, t tabular.Table) []int {
+	al := make([]int, n+1)
+	for i := 0; i <= n && i < len(c.Align); i++ {
+		al[i] = c.Align[i]
+		if v := tc.AlignValue(c.Align[i]); v != nil && t != nil {
+			t.Column(i).SetProperty(align.PropertyType, v)
+		}
+	}
+	gen.ApplyProps(t, c.Props, n, al, nil)
+	return al
 }
 
 var delimRe = regexp.MustCompile(`^ ?(:?)-{3,}(:?) ?$`)
@@ -53,13 +70,13 @@ func splitPipes(line string) (parts []string, escapedPipes int) {
 	return
 }
 
-func effAlign(c Case, col int) int {
+func effAlign(al []int, col int) int {
 	a := 0
-	if col < len(c.Align) {
-		a = c.Align[col]
+	if col < len(al) {
+		a = al[col]
 	}
-	if a == 0 && len(c.Align) > 0 {
-		a = c.Align[0]
+	if a == 0 && len(al) > 0 {
+		a = al[0]
 	}
 	return a
 }
@@ -82,11 +99,7 @@ func CheckCase(c Case) *ev.Violation {
 	if t.NColumns() != n {
 		return ev.V("NColumns()=%d but the build history has %d columns", t.NColumns(), n)
 	}
-	for i := 0; i <= n && i < len(c.Align); i++ {
-		if v := tc.AlignValue(c.Align[i]); v != nil {
-			t.Column(i).SetProperty(align.PropertyType, v)
-		}
-	}
+	al := finalAlign(c, n, t)
 	gen.ScrambleRowsCopy(t) // the caller may do what it likes with the copy it was handed
 	w := early
 	if w == nil {
@@ -133,7 +146,7 @@ func CheckCase(c Case) *ev.Violation {
 				}
 				lead, trail := mm[1] == ":", mm[2] == ":"
 				ok := false
-				switch effAlign(c, ci+1) {
+				switch effAlign(al, ci+1) {
 				case oracle.AUnset:
 					ok = !lead && !trail
 				case oracle.ALeft:
@@ -144,7 +157,7 @@ func CheckCase(c Case) *ev.Violation {
 					ok = lead && trail
 				}
 				if !ok {
-					return ev.V("delimiter cell %d is %q but the column's effective alignment is %d (0 unset 1 left 2 right 3 centre)\n%s", ci+1, d, effAlign(c, ci+1), out)
+					return ev.V("delimiter cell %d is %q but the column's effective alignment is %d (0 unset 1 left 2 right 3 centre)\n%s", ci+1, d, effAlign(al, ci+1), out)
 				}
 			}
 			continue
@@ -250,19 +263,20 @@ func Classify(c Case) (bool, interface{}, []string) {
 	if m.Mutated {
 		add("item-mutated-and-updated")
 	}
+	al := finalAlign(c, n, nil)
 	for i := 1; i <= n; i++ {
-		own := 0
-		if i < len(c.Align) {
-			own = c.Align[i]
-		}
-		if own == 0 && len(c.Align) > 0 && c.Align[0] != 0 {
+		own := al[i]
+		if own == 0 && al[0] != 0 {
 			add("inherited-align")
 			nt = true
 		}
-		if own == 0 && (len(c.Align) == 0 || c.Align[0] == 0) && i > 1 && i-1 < len(c.Align) && c.Align[i-1] > 1 {
+		if own == 0 && al[0] == 0 && i > 1 && al[i-1] > 1 {
 			add("unset-after-right-or-centre")
 		}
-		add([]string{"eff-unset", "eff-left", "eff-right", "eff-centre"}[effAlign(c, i)])
+		add([]string{"eff-unset", "eff-left", "eff-right", "eff-centre"}[effAlign(al, i)])
+	}
+	if d := gen.PropHistDepth(c.Props, n); d >= 3 {
+		add("column-carries-3-or-more-keys")
 	}
 	return nt, nil, cl
 }
